@@ -47,18 +47,21 @@ def spec(tier, seed):
     inst = []
     # lemma 1
     short = [t for t in HUNK_TEXTS if len(t[0]) <= 2]
-    texts = HUNK_TEXTS if not q else [t for t in short if t[0] in ("+", "-")][:6] + rotate(short, seed, 4)
+    two_line = [t for t in short if len(t[0]) == 2]
+    texts = HUNK_TEXTS if not q else [t for t in short if t[0] in ("+", "-")][:6] + rotate(two_line, seed, 3)
     seen = set()
     for t in texts:
         if t in seen:
             continue
         seen.add(t)
         inst.append(hunk_text_inst(*t))
-    # lemma 2 / 4: dialects (concrete end-to-end through parse_patch)
-    for (nm, text, strip, kind, old, new, ren, nh, nf) in (DIALECTS if not q else DIALECTS[:9]):
+    # lemma 2 / 4: dialects (concrete end-to-end through parse_filepatch).  Measured: the nom parser over a whole concrete file
+    # patch exceeds 10-16 GB (c19 refusals, c12 file headers, these), so none runs in the quick tier; the thorough tier tries
+    # three of them with a 30 GB cap and reports them as undecided if they do not fit.
+    for (nm, text, strip, kind, old, new, ren, nh, nf) in ([] if q else [DIALECTS[0], DIALECTS[2], DIALECTS[3]]):
         call = "t_dialect(%s, %d, %d, %s, %s, %s, %d, %d)" % (bytes_lit(text), strip, kind, bytes_lit(old), bytes_lit(new), str(ren).lower(), nh, nf)
         inst.append(Instance("c01l2_%s" % nm, "parser", call, unwind=max(len(text), 60) + 4, unwindset={"memcmp.0": 20}, stubs=[FROM_UTF8_STUB],
-                             mem_gb=16, timeout_s=2400, sub="C01 lemma 2/4: header dialect end to end (concrete)", must_cover=["dialect parsed"],
+                             mem_gb=30, timeout_s=3000, sub="C01 lemma 2/4: header dialect end to end (concrete)", must_cover=["dialect parsed"],
                              params=dict(dialect=nm, strip=strip)))
     for L, qd in ((4, False), (4, True)) if q else ((3, False), (5, False), (3, True), (5, True)):
         inst.append(Instance("c01l2_filename_%d_%s" % (L, "quoted" if qd else "plain"), "parser", "t_filename_value::<%d>(%s)" % (L, str(qd).lower()),
@@ -87,7 +90,7 @@ def spec(tier, seed):
                         one.append((n, [sh], [l], 0, d))
     two = [(5, [(0, 1, 1, 1), (1, 1, 0, 0)], [0, 3], 0, "fwd"), (4, [(0, 1, 0, 0), (0, 0, 1, 0)], [0, 3], 0, "fwd"),
            (5, [(1, 1, 1, 1), (1, 1, 1, 1)], [0, 2], 0, "fwd")]
-    ch1 = rotate(one, seed, 6) if q else one
+    ch1 = rotate(one, seed, 5) if q else one
     ch2 = two[:1] if q else two
     for (n, sh, ls, f, d) in ch1:
         inst.append(apply_inst("c01l3", n, sh, ls, f, d, ["exact", "recon", "back"], "C01 lemma 3: exact diff applies at offset 0 fuzz 0, gives B; reversed gives A", mem_gb=8))
@@ -110,6 +113,7 @@ def spec(tier, seed):
             "from_utf8 stub (asserts ASCII), memchr stand-in; VVec stand-in for lemma 3; replay on the real containers",
             "B is constructed (the reference), not computed by a diff tool",
         ],
-        "outside": ["bytes on disk after save (I/O)", "hunk texts longer than 5 lines, more than two hunks per file", "git binary patches (refused)"],
+        "outside": ["lemma 2/4 in the quick tier: header dialect -> kind / names / wiring of the hunks (the nom parser over a whole file patch exceeds 10-16 GB even on concrete text; "
+                    "the thorough tier attempts three dialects under a 30 GB cap); the sub-parsers themselves are C11's subject", "bytes on disk after save (I/O)", "hunk texts longer than 5 lines, more than two hunks per file", "git binary patches (refused)"],
         "explanation": "chain of solver-decided lemmas from diff text to patched content, each interface asserted in full",
     }
